@@ -80,6 +80,8 @@ class RealDecider:
         if len(new) > 1:
             return 'multiple-notifications'
         notif = new[0] if new else ([], [], [], True)
+        if notif[3] is not True:
+            return 'wrong-local-flag: a notification of local processing carries local=%r' % (notif[3],)
         return f"{1 if changed else 0} {self.show_notif(notif)} | {self.table()}"
 
     def rem(self, comp: List[str], halt: List[str], upd: List[str]) -> str:
@@ -92,6 +94,8 @@ class RealDecider:
         new = self.rec.notifs[n0:]
         if len(new) != 1:
             return f'{len(new)}-notifications'
+        if new[0][3] is not False:
+            return 'wrong-local-flag: the notification of a remote update carries local=%r' % (new[0][3],)
         return f"{self.show_notif(new[0])} | {self.table()}"
 
     def do_quiet(self, line: str) -> None:
